@@ -28,6 +28,7 @@ type KV struct{ K, V []byte }
 type AppState struct {
 	Raw map[string][]KV // store name -> sorted content
 
+	PosSquatted bool               // a plain account at the pos module address (observation O1: the next fee distribution halts)
 	Balances   map[string]*big.Int // address hex -> stake-denom balance
 	Dust       map[string]*big.Int // address hex -> balance in the second denomination
 	SupplyDust *big.Int
@@ -177,6 +178,9 @@ func (a *App) Snapshot() (st *AppState, err error) {
 				continue
 			}
 			addr := hx(kv.K[1:])
+			if _, isModule := acc.(authexp.ModuleAccountI); !isModule && addr == moduleAddrHex(posTypes.ModuleName) {
+				st.PosSquatted = true // observation O1: a plain account sits where the pos module account belongs
+			}
 			if pk := acc.GetPubKey(); pk != nil {
 				st.HasKey[addr] = true
 			}
